@@ -567,6 +567,44 @@ def hang_probe(repo, seed):
     return None
 
 
+def cli_failure_causes(repo, d):
+    """[(label, path)] one input file per CAUSE of a failed run -- the contract gives every cause the same outcome (exit 1, empty
+    stdout, one stderr line), so a CLI that tells causes apart (exit code / stream per exception class) shows on one of these:
+    resource limits (zip bomb ratios in every zip-based format, file over the size limit), protection (fixtures with a password),
+    unsupported type, empty / garbage content per parser family, missing file, a directory"""
+    import zipfile
+    out = []
+
+    def put(name, data):
+        pth = os.path.join(d, name)
+        with open(pth, "wb") as fh:
+            fh.write(data)
+        out.append((name, pth))
+    buf = io.BytesIO()
+    with zipfile.ZipFile(buf, "w", zipfile.ZIP_DEFLATED) as z:
+        z.writestr("word/document.xml", b"\0" * (8 * 1024 * 1024))          # entry ratio ~ 1000 : 1
+    for ext in ("zip", "docx", "xlsx", "pptx", "odt", "epub"):
+        put(f"bomb.{ext}", buf.getvalue())
+    for ext in ("docx", "pdf", "xls", "txt", "7z", "msg"):
+        put(f"empty.{ext}", b"")
+    put("unsupported.xyz", b"hello")
+    put("noext", b"hello")
+    for f in sorted(glob.glob(os.path.join(repo, "sharepoint2text/tests/resources/**/password_protected/*"), recursive=True), key=os.path.getsize)[:8]:
+        if os.path.isfile(f) and os.path.getsize(f) < 2_000_000:
+            put("protected-" + os.path.basename(f), open(f, "rb").read())
+    try:
+        for name in ("over-limit.txt", "over-limit.7z", "over-limit.zip"):
+            pth = os.path.join(d, name)
+            with open(pth, "wb") as fh:
+                fh.truncate(100 * 1024 * 1024 + 1)                             # sparse: no data blocks written
+            out.append((name, pth))
+    except OSError:
+        pass
+    os.mkdir(os.path.join(d, "dir.docx"))
+    out.append(("dir.docx (a directory)", os.path.join(d, "dir.docx")))
+    return out
+
+
 def fresh_cli_cases(repo):
     yield "g.pdf", b"garbage not a pdf", []
     pdfs = sorted(glob.glob(os.path.join(repo, "sharepoint2text/tests/resources/pdf/*.pdf")), key=os.path.getsize)
@@ -874,6 +912,13 @@ def find(req):
         t = os.path.join(d, "ok.txt")
         open(t, "w").write("hello")
         cases += [[t], [t, "--json"], [os.path.join(d, "missing.pdf")]]
+        try:
+            for _label, pth in cli_failure_causes(repo, d):
+                cases.append([pth])
+                if _label.startswith(("bomb.", "over-limit", "protected-")):
+                    cases.append([pth, "--json"])
+        except Exception:  # noqa
+            pass
         for argv in cases:
             tried += 1
             out, err = io.StringIO(), io.StringIO()
